@@ -4,6 +4,7 @@ package main
 // per input as ok | err | panic | hang.
 
 import (
+	"strconv"
 	"bytes"
 	"context"
 	"encoding/xml"
@@ -130,11 +131,65 @@ func init() {
 		if strings.HasPrefix(entry, "resolve") {
 			limit = 20 * time.Second
 		}
+		// a hang verdict is confirmed by a second run, alone, with a multiple of the limit (machine load)
+		if k, err := strconv.Atoi(os.Getenv("VERIF_WATCHDOG_SCALE")); err == nil && k > 1 {
+			limit *= time.Duration(k)
+		}
 		return watchdog(limit, func() sx.V {
 			switch entry {
 			case "parse":
-				_, err := sysOf(a.Nth(1)).Parse(arg(2))
+				v, err := sysOf(a.Nth(1)).Parse(arg(2))
+				if err == nil {
+					// every exported accessor on whatever the parser accepted
+					_ = v.String()
+					_ = v.Canon(true)
+					_ = v.Canon(false)
+					_ = v.IsWildcard()
+					_ = v.IsPrerelease()
+					_ = v.IsBuild()
+					_ = v.Prerelease()
+					_, _ = v.Epoch()
+					_, _ = v.Major()
+					_ = v.Compare(v)
+					_, _ = v.Difference(v)
+					m := sysOf(a.Nth(1)).MinVersion(v)
+					if m != nil {
+						_ = m.Compare(v)
+						_ = m.Canon(true)
+					}
+					if c, err := sysOf(a.Nth(1)).Parse(v.Canon(true)); err == nil {
+						_ = c.Compare(v)
+						_, _ = c.Difference(v)
+					}
+				}
 				return cls(err)
+			case "xmatch":
+				// a constraint of one system asked about a version of ANOTHER (compare tolerates mixed systems)
+				c, err := sysOf(a.Nth(1)).ParseConstraint(arg(2))
+				if err != nil {
+					return cls(err)
+				}
+				v, err := sysOf(a.Nth(3)).Parse(arg(4))
+				if err != nil {
+					return cls(err)
+				}
+				_ = c.MatchVersion(v)
+				_ = c.MatchVersionPrerelease(v)
+				s := c.Set()
+				_ = s.MatchVersion(v)
+				return cls(nil)
+			case "xcompare":
+				v1, err1 := sysOf(a.Nth(1)).Parse(arg(2))
+				v2, err2 := sysOf(a.Nth(3)).Parse(arg(4))
+				if err1 != nil || err2 != nil {
+					return sx.L(sx.Sym("err"))
+				}
+				// compare defines an answer for versions of different systems; (*Version).Difference does not
+				// (its Maven branch asserts the other version's extension: note N-C04-8, outside C04's statement,
+				// which speaks of System.Difference on two strings of ONE system)
+				_ = v1.Compare(v2)
+				_ = v2.Compare(v1)
+				return cls(nil)
 			case "pconstraint":
 				c, err := sysOf(a.Nth(1)).ParseConstraint(arg(2))
 				if err == nil {
